@@ -352,7 +352,7 @@ class FluxScriptAdapter(SchedulerScriptAdapter):
                 if to_be_scheduled:
                     script.write(self.get_header(step))
                 else:
-                    script.write(self._exec)
+                    script.write("#!{}".format(self._exec))
 
                 cmd = "\n\n{}\n".format(restart)
                 script.write(cmd)
